@@ -112,11 +112,12 @@ class C03(SMSpec):
     def jobs(self, tier):
         sig = [dict(kind="sig", deco=d, params=list(p)) for d in ("state", "timed", "default") for p in SUBSETS]
         if tier == "quick":
-            hist = [mkjob(s, 3, 2) for s in ("S1", "S3", "S4", "S5")] + [mkjob(s, 5, 0, ext=False) for s in ("S2", "S6")]
+            hist = ([mkjob(s, 3, 2) for s in ("S1", "S3", "S4", "S5")] + [mkjob(s, 5, 0, ext=False) for s in ("S2", "S6")]
+                    + [mkjob("S8", 4, 1, variant=1)])
         else:
             hist = ([mkjob(s, 4, 2, variant=1) for s in ("S1", "S3", "S4", "S5")]
                     + [mkjob(s, 3, 3, ext_per_iter=2, nsn_depth=2, variant=2) for s in ("S1", "S4")]
-                    + [mkjob(s, 8, 1, ext=False, variant=3) for s in ("S2", "S6", "S7")])
+                    + [mkjob(s, 8, 1, ext=False, variant=3) for s in ("S2", "S6", "S7")] + [mkjob("S8", 5, 2, variant=4)])
         for j in hist:
             j["kind"] = "hist"
         return sig + hist
